@@ -172,3 +172,28 @@ func Harness_C13_history() {
 	verifReach("end")
 }
 const verifHistSteps = 6
+
+// C13 get_vs_close: a Get racing Close: once Close has completed (Done closed) nothing more is taken from
+// the source, and a Get linearised after it fails.
+func Harness_C13_get_vs_close() {
+	src := make(chan vtok, 2)
+	src <- vtok(1)
+	src <- vtok(2)
+	ch, _ := NewChannel(context.Background(), 0, src)
+	lenAfterClose := -1
+	var v interface{}
+	var err error
+	go func() { v, err = ch.Get(nil) }()
+	go func() {
+		_ = ch.Close()
+		verifAtomic(func() { lenAfterClose = len(src) })
+	}()
+	verifFinally(func() {
+		verifAssert(lenAfterClose >= 0, "close_returns")
+		verifAssert(len(src) == lenAfterClose, "nothing_taken_from_the_source_after_close_completed")
+		if err == nil {
+			verifAssert(v == vtok(1), "get_returns_first_source_value")
+		}
+		verifReach("quiescent")
+	})
+}
